@@ -114,6 +114,7 @@ func propC01(t *testing.T, reg *Registry) {
 		return
 	}
 	pbt.Run(t, "tl1-roundtrip/"+reg.SetName, perType(len(items), 150, 1500), func(rt *rapid.T) ValCase { return genVal(rt, items, true) }, func(c ValCase) pbt.Result { return checkC01(reg, c) })
+	propC01Len(t, reg, items)
 }
 
 // ---- C03 TL2 round trip ------------------------------------------------------------------
